@@ -17,7 +17,7 @@ pub fn run(args: &[String]) -> i32 {
             let path = Path::new("/nonexistent/main.gom");
             match compiler::pipeline::pipeline::parse_ast_file(path, &text) {
                 Ok(ast) => {
-                    let (_hir, table, diags) = hir::lower_to_hir(ast);
+                    let (phir, table, diags) = hir::lower_to_hir(ast);
                     let mut uses = Vec::new();
                     for idx in 0..table.expr_count() {
                         let eid = hir::ExprId {
@@ -54,6 +54,25 @@ pub fn run(args: &[String]) -> i32 {
                         if let hir::Pat::PVar { name, astptr } = table.pat(pid) {
                             let at: u32 = astptr.text_range().start().into();
                             binds.push(json!({"x": table.local_hint(*name), "at": at, "id": name.idx}));
+                        }
+                    }
+                    for idx in 0..table.expr_count() {
+                        let eid = hir::ExprId {
+                            pkg: table.package(),
+                            idx: idx as u32,
+                        };
+                        if let hir::Expr::EClosure { params, .. } = table.expr(eid) {
+                            for cp in params.iter() {
+                                let at: u32 = cp.astptr.text_range().start().into();
+                                binds.push(json!({"x": table.local_hint(cp.name), "at": at, "id": cp.name.idx, "closure_param": true}));
+                            }
+                        }
+                    }
+                    for &def_id in phir.toplevels.iter() {
+                        if let hir::Def::Fn(func) = table.def(def_id) {
+                            for (i, (lid, _)) in func.params.iter().enumerate() {
+                                binds.push(json!({"x": table.local_hint(*lid), "at": Value::Null, "id": lid.idx, "fn": func.name, "index": i}));
+                            }
                         }
                     }
                     let d: Vec<Value> = diags.iter().map(diag_json).collect();
